@@ -57,6 +57,8 @@ pub struct Compiler<'a> {
     upvalues: Vec<Upvalues>,
     scope_depth: Vec<i32>,
     current_index: CardIndex,
+    /// program-wide unique handle of the function being compiled
+    current_function: Handle,
     function_id: usize,
 }
 
@@ -119,6 +121,7 @@ impl<'a> Compiler<'a> {
             upvalues: vec![Default::default()],
             scope_depth: vec![0],
             current_index: CardIndex::default(),
+            current_function: Handle::default(),
             current_imports: Default::default(),
             function_id: 0,
         }
@@ -324,11 +327,13 @@ impl<'a> Compiler<'a> {
             cards,
             namespace,
             imports,
+            handle,
             ..
         }: &'a FunctionIr,
     ) -> CompilationResult<()> {
         self.current_namespace = Cow::Borrowed(namespace);
         self.current_imports = Cow::Borrowed(imports);
+        self.current_function = *handle;
 
         // at runtime: pop arguments reverse order as the variables were declared
         for param in arguments.iter().rev() {
@@ -775,8 +780,11 @@ impl<'a> Compiler<'a> {
 
                 self.compile_begin();
                 const CLOSURE_MASK: u64 = 0xEFEFEFEF;
-                let function_handle =
-                    self.current_index.as_handle() + Handle::from_u64(CLOSURE_MASK);
+                // card indices are only unique within a module (the function index is relative to
+                // the module): mix in the handle of the enclosing function, which is program-wide
+                let function_handle = self.current_index.as_handle()
+                    + self.current_function
+                    + Handle::from_u64(CLOSURE_MASK);
                 let arity = embedded_function.arguments.len() as u32;
                 let handle = u32::try_from(self.program.bytecode.len())
                     .expect("bytecode length to fit into 32 bits");
